@@ -77,6 +77,8 @@ struct Outcome {
     failures: Vec<Failure>,
     /// unsymbolised asan reports: (failure index in `failures`, frame offsets)
     raw_asan: Vec<(usize, Vec<u64>)>,
+    /// replay only: full text of the first AddressSanitizer report of each iteration
+    asan_text: Vec<(u64, String)>,
     wall: f64,
 }
 
@@ -131,25 +133,36 @@ fn normalise_fn(name: &str) -> String {
         let method = rest.rsplit("::").next().unwrap_or("");
         out = format!("{ty}::{method}");
     }
-    let out = out.replace("::{closure#0}", "").replace("::{shim:vtable#0}", "");
-    out.trim_matches(':').to_string()
+    let mut out = out.replace("::{closure#0}", "").replace("::{shim:vtable#0}", "");
+    // `State::<T>::close` leaves `State::::close`
+    while out.contains("::::") {
+        out = out.replace("::::", "::");
+    }
+    out.trim_matches(':').trim().to_string()
 }
 
-/// first frame that is code under test (not the primitive shim, not std/shuttle/harness)
-fn sig_from_frames(frames: &[String]) -> Option<String> {
-    for f in frames {
-        let n = normalise_fn(f);
-        let under_test = (n.contains("s2n_quic_core::") || n.contains("s2n_quic_dc::") || n.contains("s2n_quic_platform::") || n.contains("wakeup_queue::") || n.contains("secret::sender::"))
-            && !n.contains("sync::primitive::");
-        if under_test {
-            let n = n
-                .trim_start_matches("s2n_quic_core::sync::")
-                .trim_start_matches("s2n_quic_core::")
-                .trim_start_matches("threads_miri::scenarios::wakeupq::")
-                .trim_start_matches("scenarios::wakeupq::")
-                .to_string();
-            return Some(n);
+/// A frame is code under test iff its *source file* lives in the s2n-quic checkout (reached
+/// through the `repo` symlink) and is not the primitive shim. Returns the normalised function.
+fn sig_from_frames(frames: &[(String, String)]) -> Option<String> {
+    for (func, file) in frames {
+        let in_repo = file.contains("repo/quic/") || file.contains("repo/dc/") || file.contains("repo/common/");
+        if !in_repo || file.contains("sync/primitive.rs") {
+            continue;
         }
+        let mut n = normalise_fn(func);
+        for prefix in ["s2n_quic_core::sync::", "s2n_quic_core::", "s2n_quic_platform::", "s2n_quic_dc::path::secret::", "s2n_quic_dc::"] {
+            if let Some(r) = n.strip_prefix(prefix) {
+                n = r.to_string();
+                break;
+            }
+        }
+        // files compiled into the harness by #[path]
+        for marker in ["wakeup_queue::", "secret::sender::"] {
+            if let Some(pos) = n.find(marker) {
+                n = n[pos..].to_string();
+            }
+        }
+        return Some(n);
     }
     None
 }
@@ -229,8 +242,14 @@ fn run_shuttle(scenario: &str, sched: &str, seed: u64, iters: u64, scratch: &Pat
     let mut cur_head = String::new();
     let mut in_access_stack = false;
     let mut reports_in_iter: BTreeMap<u64, u32> = BTreeMap::new();
+    let mut cur_text = String::new();
     for l in stderr.lines() {
+        if full_stacks && !l.contains("Shadow byte") && !l.trim_start().starts_with("0x") && !l.trim_start().starts_with("=>") {
+            cur_text.push_str(l);
+            cur_text.push('\n');
+        }
         if let Some(pos) = l.find("ERROR: AddressSanitizer: ") {
+            cur_text = format!("{l}\n");
             let rest = &l[pos + "ERROR: AddressSanitizer: ".len()..];
             cur_kind = Some(rest.split_whitespace().next().unwrap_or("unknown").to_string());
             cur_head = rest.chars().take(160).collect();
@@ -249,6 +268,9 @@ fn run_shuttle(scenario: &str, sched: &str, seed: u64, iters: u64, scratch: &Pat
                 *n += 1;
                 // the first report of an iteration is the cause; later ones are fall-out
                 if *n == 1 {
+                    if full_stacks {
+                        res.asan_text.push((iter, std::mem::take(&mut cur_text)));
+                    }
                     let idx = res.failures.len();
                     res.failures.push(Failure {
                         oracle: format!("c17.asan.{kind}"),
@@ -426,12 +448,20 @@ fn classify_miri(stderr: &str, scenario: &str, property: &str, aliasing: bool) -
     }
     let err = stderr.lines().find(|l| l.starts_with("error: ")).unwrap_or("").to_string();
     // backtrace frames: lines `   N: path::to::fn`
-    let mut frames: Vec<String> = vec![];
+    let mut frames: Vec<(String, String)> = vec![];
     for l in stderr.lines() {
         let t = l.trim_start();
         if let Some((n, rest)) = t.split_once(": ") {
             if !n.is_empty() && n.chars().all(|c| c.is_ascii_digit()) {
-                frames.push(rest.trim().to_string());
+                frames.push((rest.trim().to_string(), String::new()));
+                continue;
+            }
+        }
+        if let Some(at) = t.strip_prefix("at ") {
+            if let Some(last) = frames.last_mut() {
+                if last.1.is_empty() {
+                    last.1 = at.to_string();
+                }
             }
         }
     }
@@ -518,13 +548,38 @@ fn build_miri(krate: &str) -> Vec<String> {
     String::from_utf8_lossy(&out.stdout).lines().filter_map(|l| l.split_whitespace().next().map(|s| s.to_string())).collect()
 }
 
+/// Order of the scenarios inside one Miri process. A failing scenario ends the process, so the
+/// scenarios that carry known findings go last (`*.both`: concurrent close, F3; then
+/// `worker.two_senders`), and the others are rotated by the seed so that each of them is the
+/// first one of some process.
+fn miri_order(list: &[String], miri_seed: u64) -> Vec<String> {
+    let rank = |s: &String| {
+        if s == "worker.two_senders" {
+            2
+        } else if s.ends_with(".both") {
+            1
+        } else {
+            0
+        }
+    };
+    let mut first: Vec<String> = list.iter().filter(|s| rank(s) == 0).cloned().collect();
+    if !first.is_empty() {
+        let k = (miri_seed % first.len() as u64) as usize;
+        first.rotate_left(k);
+    }
+    let mut rest: Vec<String> = list.iter().filter(|s| rank(s) != 0).cloned().collect();
+    rest.sort_by_key(rank);
+    first.extend(rest);
+    first
+}
+
 fn shuttle_scenarios() -> Vec<String> {
     let out = Command::new(shuttle_bin()).arg("list").output().unwrap_or_else(|e| harness_error(&format!("{e}")));
     String::from_utf8_lossy(&out.stdout).lines().filter_map(|l| l.split_whitespace().next().map(|s| s.to_string())).collect()
 }
 
 /// one batch call of llvm-symbolizer for all distinct frame offsets of all reports
-fn symbolize(offsets: &HashSet<u64>) -> BTreeMap<u64, Vec<String>> {
+fn symbolize(offsets: &HashSet<u64>) -> BTreeMap<u64, Vec<(String, String)>> {
     let mut map = BTreeMap::new();
     if offsets.is_empty() {
         return map;
@@ -543,7 +598,8 @@ fn symbolize(offsets: &HashSet<u64>) -> BTreeMap<u64, Vec<String>> {
     let mut blocks = text.split("\n\n");
     for o in &list {
         let Some(b) = blocks.next() else { break };
-        let fns: Vec<String> = b.lines().step_by(2).map(|s| s.trim().to_string()).filter(|s| !s.is_empty()).collect();
+        let lines: Vec<&str> = b.lines().collect();
+        let fns: Vec<(String, String)> = lines.chunks(2).filter(|c| !c[0].trim().is_empty()).map(|c| (c[0].trim().to_string(), c.get(1).unwrap_or(&"").trim().to_string())).collect();
         map.insert(*o, fns);
     }
     map
@@ -623,7 +679,12 @@ fn run_items(items: Vec<Item>, property: &str, threads: usize, deadline: Instant
             if i >= items.len() || stop.load(Ordering::SeqCst) {
                 break;
             }
-            if Instant::now() >= deadline {
+            // a Miri process takes 5-30 s: do not start one that cannot finish in time
+            let margin = match &items[i] {
+                Item::Miri { .. } => Duration::from_secs(25),
+                Item::Shuttle { .. } => Duration::from_secs(3),
+            };
+            if Instant::now() + margin >= deadline {
                 stop.store(true, Ordering::SeqCst);
                 break;
             }
@@ -660,7 +721,7 @@ fn resolve_asan_sigs(t: &mut Totals) {
     }
     let sym = symbolize(&offs);
     for (idx, fr) in &t.raw_asan {
-        let mut names: Vec<String> = vec![];
+        let mut names: Vec<(String, String)> = vec![];
         for o in fr.iter().take(24) {
             if let Some(fns) = sym.get(o) {
                 names.extend(fns.iter().cloned());
@@ -670,14 +731,14 @@ fn resolve_asan_sigs(t: &mut Totals) {
         match sig_from_frames(&names) {
             Some(s) => {
                 f.sig = s;
-                let stack: Vec<String> = names.iter().map(|n| normalise_fn(n)).filter(|n| n.contains("s2n_quic") || n.contains("scenarios::")).take(6).collect();
+                let stack: Vec<String> = names.iter().map(|n| normalise_fn(&n.0)).filter(|n| n.contains("s2n_quic") || n.contains("scenarios::")).take(6).collect();
                 f.detail = format!("{} stack: {}", f.detail, stack.join(" <- "));
             }
             None => {
                 // a report with no frame of the code under test is the harness' or a dependency's problem
                 f.sig = "no-frame-of-code-under-test".into();
                 f.harness = true;
-                f.detail = format!("{} stack: {}", f.detail, names.iter().take(8).cloned().collect::<Vec<_>>().join(" <- "));
+                f.detail = format!("{} stack: {}", f.detail, names.iter().take(8).map(|n| n.0.clone()).collect::<Vec<_>>().join(" <- "));
             }
         }
     }
@@ -698,7 +759,7 @@ fn main() {
     let t0 = Instant::now();
     let scratch = PathBuf::from(format!("{TARGET}/scratch-{}-{}", a.property, std::process::id()));
     let _ = std::fs::create_dir_all(&scratch);
-    let budget = a.budget(170);
+    let budget = a.budget(150);
     let mut totals = Totals {
         evaluations: 0,
         per_scenario: BTreeMap::new(),
@@ -714,6 +775,7 @@ fn main() {
         skipped_items: 0,
     };
     let mut asan = false;
+    let _ = asan;
     let mut extra = json!({});
 
     if a.property == "C17" {
@@ -727,7 +789,7 @@ fn main() {
             harness_error("scenario list is empty");
         }
         // ---- shuttle -------------------------------------------------------------------------
-        let per_combo = a.runs.unwrap_or(if a.thorough() { 100_000 } else { 20_000 });
+        let per_combo = a.runs.unwrap_or(if a.thorough() { 50_000 } else { 10_000 });
         let mk_round = |round: u64| -> Vec<Item> {
             let mut items = vec![];
             let chunks = per_combo.div_ceil(CHUNK);
@@ -742,8 +804,8 @@ fn main() {
             }
             items
         };
-        // shuttle gets at most 45 % of the budget, Miri the rest
-        let sh_deadline = run_start + budget.mul_f64(0.45);
+        // shuttle gets at most 40 % of the budget, Miri the rest
+        let sh_deadline = run_start + budget.mul_f64(0.4);
         let mut rounds = 0u64;
         loop {
             run_items(mk_round(rounds), "C17", a.threads, sh_deadline, asan, &scratch, &mut totals);
@@ -757,7 +819,7 @@ fn main() {
         // ---- Miri ----------------------------------------------------------------------------
         let miri_start = Instant::now();
         let seeds_per_rate: u64 = if a.thorough() { 342 } else { 22 };
-        let reps = 4u32;
+        let reps = 3u32;
         let mut items = vec![];
         // aliasing-model mode (triaged, never a verdict): a small sample first
         let alias_seeds: u64 = if a.thorough() { 16 } else { 2 };
@@ -765,10 +827,10 @@ fn main() {
             for (ri, rate) in RATES.iter().enumerate() {
                 let miri_seed = hashn(a.seed, &[0x317, ri as u64]) % 1_000_000 + i;
                 if i < seeds_per_rate {
-                    items.push(Item::Miri { krate: "threads-miri".into(), scenarios: miri_list.clone(), reps, miri_seed, rate: rate.to_string(), aliasing: false });
+                    items.push(Item::Miri { krate: "threads-miri".into(), scenarios: miri_order(&miri_list, miri_seed), reps, miri_seed, rate: rate.to_string(), aliasing: false });
                 }
                 if i < alias_seeds {
-                    items.push(Item::Miri { krate: "threads-miri".into(), scenarios: miri_list.clone(), reps: 1, miri_seed, rate: rate.to_string(), aliasing: true });
+                    items.push(Item::Miri { krate: "threads-miri".into(), scenarios: miri_order(&miri_list, miri_seed), reps: 1, miri_seed, rate: rate.to_string(), aliasing: true });
                 }
             }
         }
@@ -781,7 +843,7 @@ fn main() {
             for i in 0..16 {
                 for (ri, rate) in RATES.iter().enumerate() {
                     let miri_seed = hashn(a.seed, &[0x317, ri as u64]) % 1_000_000 + extra_seed + i;
-                    items.push(Item::Miri { krate: "threads-miri".into(), scenarios: miri_list.clone(), reps, miri_seed, rate: rate.to_string(), aliasing: false });
+                    items.push(Item::Miri { krate: "threads-miri".into(), scenarios: miri_order(&miri_list, miri_seed), reps, miri_seed, rate: rate.to_string(), aliasing: false });
                 }
             }
             extra_seed += 16;
@@ -822,7 +884,7 @@ fn main() {
         let build_s = t0.elapsed().as_secs_f64();
         let run_start = Instant::now();
         let deadline = run_start + budget;
-        let seeds_per_rate: u64 = a.runs.unwrap_or(if a.thorough() { 342 } else { 22 });
+        let seeds_per_rate: u64 = a.runs.unwrap_or(if a.thorough() { 342 } else { 16 });
         let reps = 12u32;
         let mut items = vec![];
         for i in 0..seeds_per_rate {
@@ -911,6 +973,24 @@ fn main() {
         eprintln!("HARNESS-ERROR: {} {} :: {}", f.oracle, f.sig, f.detail.chars().take(600).collect::<String>());
     }
 
+    // which engine / scheduler / scenario produced which (oracle, sig): known findings included
+    let mut failure_summary: BTreeMap<String, u64> = BTreeMap::new();
+    for f in &totals.failures {
+        let by = match f.replay["engine"].as_str() {
+            Some("shuttle") => format!("shuttle {} {}", f.replay["scheduler"].as_str().unwrap_or("?"), f.replay["scenario"].as_str().unwrap_or("?")),
+            _ => format!(
+                "miri{} rate {} {}",
+                if f.replay["aliasing_model"].as_bool() == Some(true) { "-aliasing" } else { "" },
+                f.replay["preemption_rate"].as_str().unwrap_or("?"),
+                f.replay["failing_scenario"].as_str().unwrap_or("?")
+            ),
+        };
+        *failure_summary.entry(format!("{} | {} | {}", f.oracle, f.sig, by)).or_insert(0) += 1;
+    }
+    for (k, n) in &failure_summary {
+        println!("seen {n:>6} x {k}");
+    }
+
     // ---- evidence --------------------------------------------------------------------------------
     let wall = t0.elapsed().as_secs_f64();
     let mut distinct_by: BTreeMap<String, u64> = BTreeMap::new();
@@ -934,6 +1014,7 @@ fn main() {
         "known_findings_seen": known_seen,
         "known_finding_replays": known_replays,
         "aliasing_mode_complaints_triaged": triage_counts,
+        "oracle_hits_by_engine_scheduler_scenario": failure_summary,
         "work_items_skipped_by_budget": totals.skipped_items,
         "harness_errors": harness.len(),
         "new_violations": new_violations,
@@ -970,6 +1051,34 @@ fn main() {
 // ---------------------------------------------------------------------------------------------
 // replay
 
+/// prints an AddressSanitizer report with its `(binary+0xoff)` frames resolved (functions incl.
+/// inlined ones, source lines); only frames of the code under test and of the scenarios are kept
+fn print_symbolised(report: &str) {
+    let mut offs = HashSet::new();
+    for l in report.lines() {
+        if let Some(off) = l.rsplit_once("+0x").and_then(|x| x.1.split(')').next()).and_then(|h| u64::from_str_radix(h, 16).ok()) {
+            offs.insert(off);
+        }
+    }
+    let sym = symbolize(&offs);
+    println!("---- AddressSanitizer report of the replayed iteration (frames of s2n-quic and of the scenario only) ----");
+    for l in report.lines() {
+        let t = l.trim_start();
+        if t.starts_with('#') {
+            if let Some(off) = l.rsplit_once("+0x").and_then(|x| x.1.split(')').next()).and_then(|h| u64::from_str_radix(h, 16).ok()) {
+                for (f, file) in sym.get(&off).cloned().unwrap_or_default() {
+                    if file.contains("repo/") || file.contains("scenarios/") {
+                        println!("      {} at {}", normalise_fn(&f), file.rsplit_once("repo/").map(|x| x.1).unwrap_or(&file));
+                    }
+                }
+            }
+        } else if !t.is_empty() && !t.starts_with("SUMMARY") && !t.starts_with("==") || t.contains("ERROR: AddressSanitizer") {
+            println!("  {}", t.chars().take(200).collect::<String>());
+        }
+    }
+    println!("----");
+}
+
 fn replay(a: &CheckArgs, file: &str) -> ! {
     let doc: Value = std::fs::read_to_string(file).ok().and_then(|s| serde_json::from_str(&s).ok()).unwrap_or_else(|| harness_error(&format!("cannot read replay file {file}")));
     let property = doc["property"].as_str().unwrap_or(&a.property).to_string();
@@ -1004,7 +1113,10 @@ fn replay(a: &CheckArgs, file: &str) -> ! {
             let iter = doc["iteration"].as_u64().unwrap_or(0);
             target_iter = Some(iter);
             println!("replaying shuttle {scenario} {sched} chunk_seed={seed}: iterations 0..={iter} (the schedule of iteration {iter} is re-derived from the seed)");
-            let o = run_shuttle(&scenario, &sched, seed, iter + 1, &scratch, "replay", asan, true);
+            let mut o = run_shuttle(&scenario, &sched, seed, iter + 1, &scratch, "replay", asan, true);
+            if let Some((_, text)) = std::mem::take(&mut o.asan_text).into_iter().find(|(i, _)| *i == iter) {
+                print_symbolised(&text);
+            }
             add(&mut totals, &Item::Shuttle { scenario, sched, seed, iters: iter + 1 }, o);
             resolve_asan_sigs(&mut totals);
         }
